@@ -112,6 +112,7 @@ class Emitter:
         self.it = it
         self.node = node_param
         self.env = {}        # var -> parts
+        self.closures = {}   # local closure name -> closure node
         self.ref = {node_param: ""}        # var -> field path it aliases ("" = the node itself)
         self.template = self.run_block(it["body"])
 
@@ -200,6 +201,16 @@ class Emitter:
                 return self.ev(e[2][0], depth + 1) if e[2] else []
             if f in ("String::new",):
                 return []
+            if f in getattr(self, "closures", {}):
+                clo = self.closures[f]
+                saved = (dict(self.env), dict(self.ref))
+                for cp, a in zip(clo[1], e[2]):
+                    ra = self.ref_of(a)
+                    if ra is not None:
+                        self.bind_pattern(cp[1] if is_node(cp) and cp[0] == "ptype" else cp, ra)
+                out_ = self.ev(clo[2], depth + 1)
+                self.env, self.ref = saved
+                return out_
             r = [self.ref_of(a) for a in e[2]]
             r = [x for x in r if x is not None]
             if r:
@@ -345,12 +356,30 @@ class Emitter:
                 if r is not None and not (is_node(init) and init[0] == "mcall" and init[2] in ("to_string",)):
                     self.bind_pattern(pat, r)
                     continue
+                if pat[0] == "pident" and is_node(init) and init[0] == "closure":
+                    self.closures[pat[1]] = init
+                    continue
                 if pat[0] == "pident":
                     self.env[pat[1]] = self.ev(init)
                     self.ref.pop(pat[1], None)
                 elif pat[0] == "ptuple":
-                    for p in find(pat, "pident"):
-                        self.env[p[1]] = [("unk", "tuple-let")]
+                    # let (a, b) = match &node.f { Some((x, y)) => (render x, render y), None => ("", "") }
+                    done = False
+                    if is_node(init) and init[0] == "match" and self.ref_of(init[1]) is not None:
+                        p_ = self.ref_of(init[1])
+                        some = [a for a in init[2] if render_pat(a[0]).startswith("Some")]
+                        if len(some) == 1 and is_node(some[0][2]) and some[0][2][0] == "tuple" and len(some[0][2][1]) == len(pat[1]):
+                            saved = (dict(self.env), dict(self.ref))
+                            self.bind_pattern(some[0][0], p_)
+                            vals = [self.ev(x) for x in some[0][2][1]]
+                            self.env, self.ref = saved
+                            for sub, v in zip(pat[1], vals):
+                                if sub[0] == "pident":
+                                    self.env[sub[1]] = [("opt", p_, v)]
+                            done = True
+                    if not done:
+                        for p in find(pat, "pident"):
+                            self.env[p[1]] = [("unk", "tuple-let")]
             elif st[0] == "expr":
                 e = st[1]
                 last = (i == len(stmts) - 1)
